@@ -684,7 +684,7 @@ func (ex *Exec) findConstGlobals() {
 
 func (ex *Exec) hasActiveClause(c *Contract) bool {
 	for _, cl := range c.Clauses {
-		if tagActive(cl.Tags, ex.prop) && cl.Kind != "exempt" {
+		if tagActive(cl.Tags, ex.prop) && cl.Kind != "exempt" && cl.Kind != "params" && cl.Kind != "local" {
 			return true
 		}
 	}
